@@ -1491,10 +1491,19 @@ class FortranFile:
                         continue
                     name, dims = self.parse_imp_dim(name)
                     name, char_len = self.parse_imp_char(name)
+                    var_kind = obj_info.var_kind
+                    # What is given with the entity overrides the attribute /
+                    # selector given for the whole statement
                     if dims:
+                        var_keywords = [
+                            keyword
+                            for keyword in var_keywords
+                            if not keyword.lower().startswith("dimension")
+                        ]
                         var_keywords.append(dims)
                     if char_len:
                         desc += char_len
+                        var_kind = None
 
                     name = name.strip()
                     keywords, keyword_info = map_keywords(var_keywords)
@@ -1518,7 +1527,7 @@ class FortranFile:
                             desc,
                             keywords,
                             keyword_info=keyword_info,
-                            kind=obj_info.var_kind,
+                            kind=var_kind,
                             link_obj=link_name,
                         )
                         # If the object is fortran_var and a parameter include
